@@ -199,7 +199,12 @@ def run_grid(kind, ctx):
                 continue
             for count in range(6):
                 case = {"kind": kind, "form": form, "setting": repr(setting), "count": count}
-                fails, nt = grid_case(kind, form, setting, count)
+                try:
+                    with env.watchdog():
+                        fails, nt = grid_case(kind, form, setting, count)
+                except env.CaseHang:
+                    fails, nt = [failure("hang.no_return", "the call did not return within %d s"
+                                         % env.HANG_SECONDS)], True
                 unmatched = ctx.case(case, nt, ["grid:" + M.classify(setting)[0]], fails, kind="grid")
                 if unmatched:
                     ctx.violation("grid", case, unmatched)
